@@ -130,3 +130,80 @@ Example C10_nested_nonvacuous :
   | None => False
   end.
 Proof. vm_compute. repeat split; reflexivity. Qed.
+
+(* --- round 11 --- *)
+(* Histories of round trips in ONE process (Model/MsgHistory.v).  The theorems above speak about one isolated
+   serialise / deserialise cycle; the property speaks about every message, whatever the process did before.  In the
+   model a deserialisation is a pure function of the class and the wire form, so the statements below are immediate -
+   they name what the correspondence now checks on the real classes (harness/drv_C10.py `history`, checker
+   `chk_history`): after an arbitrary history of readings, in-place edits of the instances received and
+   serialisations, the implementation's answer on wire form t is the model's answer on t, and instances are
+   independent of one another. *)
+From Verif Require Import Model.MsgHistory Proofs.MsgHistory_proofs.
+
+(* a reading (constructor / from_dict / from_json, from_urlencoded, a nested deserializer) answers from the wire form
+   alone: the same answer in every state of the process *)
+Theorem C10_reading_state_independent :
+  forall st st' e r, recv_out e = Some r -> snd (hstep st e) = OMsg r /\ snd (hstep st' e) = snd (hstep st e).
+Proof. exact reading_state_independent. Qed.
+Print Assumptions C10_reading_state_independent.
+
+(* ... hence the answer at the end of ANY two histories, from any two states, is the same *)
+Theorem C10_reading_history_independent :
+  forall es es' st st' e r, recv_out e = Some r ->
+  last (snd (hrun st (es ++ [e]))) ONone = last (snd (hrun st' (es' ++ [e]))) ONone.
+Proof. exact last_reading_two. Qed.
+Print Assumptions C10_reading_history_independent.
+
+(* the holder's edit of ITS instance reaches no other instance the process holds (the model's "no shared mutable
+   value"), and serialising changes nothing that is held *)
+Theorem C10_edit_stays_in_its_instance :
+  forall st e j, match e with HSet i _ _ | HDel i _ => i <> j | _ => False end ->
+  nth_error (fst (hstep st e)) j = nth_error st j /\ length (fst (hstep st e)) = length st.
+Proof. exact edit_local. Qed.
+Print Assumptions C10_edit_stays_in_its_instance.
+
+Theorem C10_serialising_keeps_instances :
+  forall st e, match e with HToDict _ _ | HToUrl _ _ => True | _ => False end -> fst (hstep st e) = st.
+Proof. exact send_keeps_store. Qed.
+Print Assumptions C10_serialising_keeps_instances.
+
+(* the round-trip theorems at the end of an arbitrary history: for every class name of the table and every valid
+   message, whatever was read, edited and serialised before (es, from any state st), the message comes back with
+   exactly its entries *)
+Theorem C10_dict_roundtrip_after_history :
+  forall n c, find_class n all_classes = Some c -> forall m, valid_msg c m = true -> forall es st,
+  exists d r, to_dict c m = Ok d /\ last (snd (hrun st (es ++ [HConstruct n d]))) ONone = OMsg (Ok r) /\ same_entries r m.
+Proof. exact history_dict_roundtrip. Qed.
+Print Assumptions C10_dict_roundtrip_after_history.
+
+Theorem C10_nested_dict_roundtrip_after_history :
+  forall n c, find_class n all_classes = Some c -> forall m f, valid_msg c m = true -> f <> WUrl -> forall es st,
+  exists d r, to_dict c m = Ok d /\ last (snd (hrun st (es ++ [HOneOf n f (VDict d)]))) ONone = OMsg (Ok r) /\ same_entries r m.
+Proof. exact history_nested_roundtrip. Qed.
+Print Assumptions C10_nested_dict_roundtrip_after_history.
+
+Theorem C10_urlencoded_partial_after_history :
+  forall n c, find_class n all_classes = Some c -> forall m, valid_form c m = true -> list_elems_no_space c m = true ->
+  forall es st,
+  exists t r, to_urlencoded c m = Ok t /\ last (snd (hrun st (es ++ [HFromUrl n t]))) ONone = OMsg (Ok r) /\ form_entries_of r m.
+Proof. exact history_urlencoded_roundtrip. Qed.
+Print Assumptions C10_urlencoded_partial_after_history.
+
+(* non-vacuity: the example message is read, the receiver edits its copy (a scope removed, an audience of its own
+   added, the extra parameter deleted), the same wire form is read again by the class and the edited copy is sent on:
+   the second reading is the message, the first slot holds the edits *)
+Example C10_history_nonvacuous :
+  let es := [HConstruct ex_class ex_msg;
+             HSet 0 (PS "scope") (VList [VStr (PS "openid")]); HSet 0 (PS "x_mine") (VList [VStr (PS "a")]);
+             HDel 0 (PS "x_extra");
+             HConstruct ex_class ex_msg; HToDict ex_class 0] in
+  match hrun [] es with
+  | (st, [OMsg (Ok a); ONone; ONone; ONone; OMsg (Ok b); OMsg (Ok c)]) =>
+      a = ex_msg /\ b = ex_msg /\ nth_error st 1 = Some (Some ex_msg)
+      /\ assoc (PS "x_mine") c = Some (VList [VStr (PS "a")]) /\ assoc (PS "x_extra") c = None
+      /\ chk_history (es, Ok (snd (hrun [] es))) = true
+  | _ => False
+  end.
+Proof. vm_compute. repeat split; reflexivity. Qed.
+(* --- end round 11 --- *)
